@@ -83,7 +83,7 @@ def gen_params(rng, name, nmax=8, n=None):
         elif p == "alpha":
             ps.append(F(rng.choice([1, 2, 3, 4, 5, 6]), 2) if False else F(rng.choice([2, 3, 4, 5, 6, 8]), 4))
         elif p == "gamma":
-            ps.append(F(rng.choice([0, 1, 2, 3, 4, 5, 6, 7]), 8))
+            ps.append(F(rng.choice([0, 2, 4, 6, 8, 10, 12, 14, 1, 15]), 16))   # incl. gammas close to 0 and to 1
         elif p == "sigma":
             ps.append(F(rng.choice([1, 2, 4, 6, 6, 8, 12])))
         elif p == "offset":
@@ -198,7 +198,7 @@ def stream(rng, family, length, n=4, positive=False):
     elif family in ("tiny", "huge"):
         # ordinary shapes in very small / very large units (exact powers of two): absolute thresholds show up here
         base = stream(rng, rng.choice(["ints", "dyadic8", "ties", "rampup", "sawtooth", "spike"]), L, n)
-        sc = F(2) ** (-40 if family == "tiny" else 30)
+        sc = F(2) ** ((-70 if rng.random() < 0.35 else -40) if family == "tiny" else 30)   # 9e-13 or 8e-22: below any plausible absolute guard
         xs = [x * sc for x in base]
     elif family == "level":
         # a quiet series at a high level (an index near 10^6 moving by hundredths): the spread is 10^-8 ... 10^-9 of the level, so
